@@ -385,17 +385,21 @@ def bool_fn_truth(prog, body, leaf, depth=0):
     """truth of a bool-returning function/closure under `leaf` (expr -> int/bool or None): OR over the definitions of the return
     place (assignments and call destinations) of (path condition of the defining block) AND (defined value)"""
     co = Origin(body)
-    defs = []
     rel = lambda a: True
-    for bi, blk in enumerate(body.blocks):
-        if blk["cleanup"]:
-            continue
-        for si, st in enumerate(blk["stmts"]):
-            if st["k"] == "assign" and st["p"]["l"] == 0 and not st["p"]["proj"]:
-                defs.append((bi, co._rvalue(st["r"], (bi, si), 0)))
-        t = blk["term"]
-        if t["k"] == "call" and t.get("dest") and t["dest"]["l"] == 0 and not t["dest"]["proj"]:
-            defs.append((bi, co.call_expr(bi)))
+
+    def defs_of(l):
+        out_ = []
+        for bi, blk in enumerate(body.blocks):
+            if blk["cleanup"]:
+                continue
+            for si, st in enumerate(blk["stmts"]):
+                if st["k"] == "assign" and st["p"]["l"] == l and not st["p"]["proj"]:
+                    out_.append((bi, si, st["r"]))
+            t = blk["term"]
+            if t["k"] == "call" and t.get("dest") and t["dest"]["l"] == l and not t["dest"]["proj"]:
+                out_.append((bi, "term", None))
+        return out_
+    defs = defs_of(0)
     if not defs:
         raise ipe.Unsupported("no definition of the result")
 
@@ -426,14 +430,33 @@ def bool_fn_truth(prog, body, leaf, depth=0):
                 return ev.val(core(_subst_params(ro[0], e_[2])))
         return None
     ev = ipe.Eval({}, {}, leaf=full_leaf)
-    out = False
-    for bi, val in defs:
-        dnf = conditions(body, bi, origin=co, relevant=rel)
-        if dnf is None:
-            raise ipe.Unsupported("path condition too large")
-        if any(all(ev.lit(a, v) for (a, v) in c) for c in dnf) and ev.val(core(val))[0] == 1:
-            out = True
-    return out
+
+    def bool_local(op):
+        return op.get("k") in ("copy", "move") and not op["p"]["proj"] and body.locals[op["p"]["l"]]["ty"] == "bool" and op["p"]["l"] > body.j.get("argc", 0)
+
+    def truth_of_local(l, fuel=8):
+        """OR over the definitions of local l of (path condition of the defining block) AND (defined value); a bool temporary that is
+        itself the join of `a && b` / `!x` arms is evaluated definition by definition, not as a path-insensitive phi"""
+        if fuel == 0:
+            raise ipe.Unsupported("boolean temporaries nest too deep")
+        res = False
+        for bi, si, r in defs_of(l):
+            dnf = conditions(body, bi, origin=co, relevant=rel)
+            if dnf is None:
+                raise ipe.Unsupported("path condition too large")
+            if not any(all(ev.lit(a, v) for (a, v) in c) for c in dnf):
+                continue
+            if r is None:
+                v = ev.val(core(co.call_expr(bi)))[0] == 1
+            elif r["k"] == "use" and bool_local(r["o"]):
+                v = truth_of_local(r["o"]["p"]["l"], fuel - 1)
+            elif r["k"] == "unop" and r.get("op") == "Not" and bool_local(r.get("o", r.get("a", {}))):
+                v = not truth_of_local(r.get("o", r.get("a"))["p"]["l"], fuel - 1)
+            else:
+                v = ev.val(core(co._rvalue(r, (bi, si), 0)))[0] == 1
+            res = res or bool(v)
+        return res
+    return truth_of_local(0)
 
 
 PERM_BITS = {1: "R", 2: "W", 4: "X"}   # procfs MMPermissions (bitflags): READ, WRITE, EXECUTE
